@@ -75,6 +75,7 @@ def run(ctx):
                     if cn.endswith("Relocation"):
                         ctx.ob("C09.R2", "%s:%s" % (m.rel, cn), "relocation class %s returned by an instruction is registered with an isa (the linker looks it up by name)" % cn, cn in reg, construct="registered:" + cn)
     _grammar_generator(ctx)
+    _register_text(ctx)
 
 
 def _grammar_generator(ctx):
@@ -196,3 +197,76 @@ def _grammar_generator(ctx):
     ga_ = ctx.fn(E, "Syntax.get_args")
     ok = "isspace()" in norm(ga_) and any(isinstance(n, ast.Yield) for n in ast.walk(ga_)) and "for element in self.syntax" in norm(ga_)
     ctx.ob("C09.R3", E + ":Syntax.get_args", "only blank literals are dropped from the element sequence the grammar is built from", ok, construct="get-args-drops-blank-only")
+
+
+REG = "ppci/arch/registers.py"
+OPT_INT_ATTRS = {"_num", "_color", "num", "color"}
+
+
+def truthiness_tests(tree):
+    """(node, text) for every place where an expression ending in one of the optional register-number attributes is
+    used as a truth value (if / while / assert / and / or / not / conditional expression)"""
+    out = []
+    def operand(e):
+        while isinstance(e, ast.UnaryOp) and isinstance(e.op, ast.Not):
+            e = e.operand
+        if isinstance(e, ast.BoolOp):
+            for v in e.values:
+                operand(v)
+            return
+        if isinstance(e, ast.Attribute) and e.attr in OPT_INT_ATTRS:
+            out.append((e, norm(e)))
+        elif isinstance(e, ast.Name) and e.id in OPT_INT_ATTRS:
+            out.append((e, norm(e)))
+    for n in ast.walk(tree):
+        if isinstance(n, (ast.If, ast.While, ast.IfExp)):
+            operand(n.test)
+        elif isinstance(n, ast.Assert):
+            operand(n.test)
+        elif isinstance(n, ast.BoolOp):
+            for v in n.values:
+                operand(v)
+        elif isinstance(n, ast.UnaryOp) and isinstance(n.op, ast.Not):
+            operand(n.operand)
+    seen, uniq = set(), []
+    for n, t in out:
+        if id(n) not in seen:
+            seen.add(id(n))
+            uniq.append((n, t))
+    return uniq
+
+
+def _register_text(ctx):
+    """R4: operands are printed with str(); a register-SET operand (thumb push/pop) is a plain set, whose str() shows
+    the repr() of its members.  Both texts of a hardware register have to be the name the assembler knows, for every
+    register number including 0."""
+    ctx.rule("C09.R4", "the printed text of a hardware register is its name, through str() and through repr() (members of a set operand), for every register number including 0: number/colour are tested with `is None`, never by truthiness", floor=5)
+    ctl = ast.parse("def f(self):\n    if self._num:\n        return self.name\n    x = 1 if not self.color else 2\n    if self._num is None:\n        pass\n")
+    ctx.need(len(truthiness_tests(ctl)) == 2, "C09.R4 positive control lost")
+    mod = ctx.project.module(REG)
+    hits = truthiness_tests(mod.tree)
+    ctx.ob("C09.R4", REG, "no truth-value test of a register number or colour (0 is a register number)", not hits, construct="no-truthiness-of-number", node=hits[0][0] if hits else None,
+           detail="; ".join("line %d: %s" % (n.lineno, t) for n, t in hits))
+    for meth in ("__repr__", "__str__"):
+        f = ctx.fn(REG, "Register." + meth)
+        site = "%s:Register.%s" % (REG, meth)
+        rets = [r for r in walk_no_nested(f) if isinstance(r, ast.Return)]
+        from ..sym import conjuncts
+        hw = []
+        for r in rets:
+            conds = [(" ".join(norm(c).split()), pol) for c, pol in conjuncts(r, f, {})]
+            virt = any((c == "self._num is None" and pol is True) or (c == "self._num is not None" and pol is False) for c, pol in conds)
+            hard = any((c == "self._num is not None" and pol is True) or (c == "self._num is None" and pol is False) for c, pol in conds)
+            if hard and not virt:
+                hw.append(r)
+            elif not virt:
+                hw.append(r)     # a return that is not confined to virtual registers is also taken by hardware registers
+        ok = bool(hw) and all(r.value is not None and norm(r.value) == "self.name" for r in hw)
+        ctx.ob("C09.R4", site, "every return a hardware register (self._num is not None) can reach yields self.name", ok, construct="hardware-text:" + meth, node=next((r for r in hw if r.value is None or norm(r.value) != "self.name"), None),
+               detail="%d return(s) reachable by a hardware register" % len(hw))
+    f = ctx.fn(REG, "Register.is_colored")
+    ok = any(isinstance(r, ast.Return) and " ".join(norm(r.value).split()) == "self._color is not None" for r in ast.walk(f))
+    ctx.ob("C09.R4", REG + ":Register.is_colored", "a register is coloured iff its colour is not None (colour 0 counts)", ok, construct="is-colored")
+    g = ctx.fn("ppci/arch/encoding.py", "Syntax._get_repr")
+    ok = any(isinstance(r, ast.Return) and isinstance(r.value, ast.Call) and norm(r.value.func) == "str" for r in ast.walk(g))
+    ctx.ob("C09.R4", "ppci/arch/encoding.py:Syntax._get_repr", "an operand is printed with str() of its value", ok, construct="operand-str")
